@@ -1049,3 +1049,182 @@ def ok_variants(b):
     if any(t["else"] == o or b.can_reach(t["else"], o) for o in oks):
         out |= {n for v, n in names.items() if v not in listed}
     return out
+
+
+def call_component(F, b, o, depth=8):
+    """The operand, inside a crate-local callee, that a component of the callee's result stands for.
+
+    `o` (in body b) is traced back through copies, integer casts, named single-assignment locals, `?`/unwrap plumbing and
+    tuple / struct field projections to a call of a crate-local function g; the same projections are then applied to the
+    aggregate g returns (`Ok((a, b, c))`, `Ok(Parts { content: a, length: b, .. })`, ...).  Returns (g_body, operand) or
+    None.  A tuple and a struct with the same components in the same roles give the same answer."""
+    from mir import op_place
+    path = []          # field indices applied to the call's value, outermost last
+    cur = o
+    for _ in range(depth * 3):
+        p = op_place(cur)
+        if p is None:
+            return None
+        proj = [e for e in p["p"] if e != "*"]
+        fields = []
+        for e in proj:
+            if isinstance(e, dict) and "f" in e:
+                fields.append(e["f"])
+            elif isinstance(e, dict) and ("down" in e or "v" in e):
+                continue          # variant downcast (Ok / Some / Continue): the payload follows as field 0
+            else:
+                return None
+        l = p["l"]
+        d = b.single_def(l)
+        if d is None:
+            return None
+        path = fields + path
+        if d[2] == "rv":
+            rv = d[3]
+            if rv["k"] in ("use", "cast"):
+                cur = rv["o"]
+                continue
+            if rv["k"] == "ref":
+                cur = {"c": rv["p"]}
+                continue
+            if rv["k"] == "agg" and path:
+                k = path.pop(0)
+                if k < len(rv["ops"]):
+                    cur = rv["ops"][k]
+                    continue
+            return None
+        t = d[3]
+        short = (t["f"].get("fn") or "").rsplit("::", 1)[-1]
+        tgt = t["f"].get("res") or t["f"].get("fn") or ""
+        if t["f"].get("loc") and tgt in F.bodies:
+            g = F.bodies[tgt]
+            return _component_in(F, g, {"c": {"l": 0, "p": []}}, path)
+        if short in ("branch", "unwrap", "expect", "unwrap_or_default", "into", "from", "clone") and t["args"]:
+            # Try::branch wraps the payload as Continue(x): the projection `.0` after the downcast is the payload itself
+            if short == "branch" and path and path[0] == 0:
+                path.pop(0)
+            cur = t["args"][0]
+            continue
+        return None
+    return None
+
+
+def _component_in(F, g, o, path, depth=12):
+    """apply the field path to what operand o of body g was built from (through Ok/Some wrappers)."""
+    from mir import op_place
+    cur = o
+    for _ in range(depth * 3):
+        p = op_place(cur)
+        if p is None:
+            return (g, cur) if not path else None
+        if p["p"]:
+            return None
+        ds = g.defs.get(p["l"], [])
+        # the return place is assigned once per successful exit: take the Ok/Some aggregate (several: all must agree — not needed here)
+        aggs = [d for d in ds if d[2] == "rv" and d[3]["k"] == "agg"]
+        if len(ds) == 1 and ds[0][2] == "rv" and ds[0][3]["k"] in ("use", "cast"):
+            cur = ds[0][3]["o"]
+            continue
+        if aggs:
+            oks = [d for d in aggs if d[3]["kind"].get("var") in ("Ok", "Some")]
+            if oks:
+                if len(oks) != 1:
+                    return None
+                cur = oks[0][3]["ops"][0]
+                continue
+            if len(aggs) != 1 or len(ds) != 1:
+                return None
+            if not path:
+                return (g, cur)
+            k = path.pop(0)
+            if k >= len(aggs[0][3]["ops"]):
+                return None
+            cur = aggs[0][3]["ops"][k]
+            continue
+        return (g, cur) if not path else None
+    return None
+
+
+def out_tokens(b):
+    """The bytes a function writes, as a sequence of tokens in program order (reverse postorder of the blocks, position in the
+    block): ('lit', bytes, bb) for constant text — a piece of a format template, or write_all of a constant —,
+    ('val', operand, bb) for a formatted argument or a non-constant buffer handed to write_all (look through `as_bytes`,
+    `itoa::Buffer::format`, `to_string`), ('call', canonical name, bb) for a call of a crate-local function that takes the
+    sink.  `write!(f, "a{}b", x)` and `f.write_all(b"a")?; f.write_all(x.as_bytes())?; f.write_all(b"b")?` give the same
+    tokens; adjacent literals of one block are merged."""
+    order = {}
+    seen, stack, post = set(), [(0, iter(b.succ[0]))], []
+    seen.add(0)
+    while stack:
+        x, it = stack[-1]
+        adv = False
+        for y in it:
+            if y not in seen:
+                seen.add(y)
+                stack.append((y, iter(b.succ[y])))
+                adv = True
+                break
+        if not adv:
+            post.append(x)
+            stack.pop()
+    for i, x in enumerate(reversed(post)):
+        order[x] = i
+    raw = []
+    fsites = {s["call"].bb: s for s in format_sites(b)}
+    for c in b.calls:
+        n = c.fn or c.name
+        if c.bb in fsites and fsites[c.bb]["call"] is c:
+            s = fsites[c.bb]
+            for k, v in s["pieces"]:
+                if k == "lit":
+                    raw.append((order.get(c.bb, 10**6), "lit", v, c.bb))
+                else:
+                    idx = v.get("index")
+                    a = s["args"][idx] if idx is not None and idx < len(s["args"]) else None
+                    raw.append((order.get(c.bb, 10**6), "val", getattr(a, "operand", None), c.bb))
+        elif re.search(r"io::Write::write_all$|Vec::<.*>::extend_from_slice$", n) and len(c.args) >= 2:
+            kb = _const_bytes_through(b, c.args[1])
+            if kb is not None:
+                raw.append((order.get(c.bb, 10**6), "lit", kb, c.bb))
+            else:
+                raw.append((order.get(c.bb, 10**6), "val", c.args[1], c.bb))
+        elif c.local and re.search(r"(Writer::write_\w+|write_cross_reference_stream|write_trailer)$", c.cname or ""):
+            raw.append((order.get(c.bb, 10**6), "call", c.cname, c.bb))
+    raw.sort(key=lambda t: t[0])
+    out = []
+    for _o, k, v, bb in raw:
+        if k == "lit" and out and out[-1][0] == "lit" and out[-1][2] == bb:
+            out[-1] = ("lit", out[-1][1] + v, out[-1][2])
+        else:
+            out.append((k, v, bb))
+    return out
+
+
+def val_source(b, o, depth=8):
+    """rendering of what a 'val' token prints: through as_bytes / as_str / to_string / itoa::Buffer::format / deref."""
+    if o is None:
+        return "?"
+    cur = o
+    for _ in range(depth):
+        p = op_place(cur)
+        if p is None:
+            break
+        d = b.single_def(p["l"]) if not [e for e in p["p"] if e != "*"] and p["l"] not in b.names else None
+        if d is None:
+            break
+        if d[2] == "rv" and d[3]["k"] in ("use", "cast"):
+            cur = d[3]["o"]
+            continue
+        if d[2] == "rv" and d[3]["k"] == "ref":
+            cur = {"c": d[3]["p"]}
+            continue
+        if d[2] == "call":
+            short = (d[3]["f"].get("fn") or "").rsplit("::", 1)[-1]
+            if short in ("as_bytes", "as_str", "to_string", "deref", "as_ref", "borrow") and d[3]["args"]:
+                cur = d[3]["args"][0]
+                continue
+            if short == "format" and "itoa" in (d[3]["f"].get("fn") or "") and len(d[3]["args"]) == 2:
+                cur = d[3]["args"][1]
+                continue
+        break
+    return traced(b, cur, 4)
